@@ -65,10 +65,6 @@ and the verifiers it builds are not exhaustive -/
 def WalkSane (P : Policy) (path : String) : Prop :=
   ∀ vs, P.findSpecific path = some vs → ∀ vn ∈ vs, vn.name ≠ exhaustiveName ∧ vn.v.exhaustive = false
 
-/-- the "already verified with" names of the two runs: equal, or the run with global rules holds
-the exhaustive verifier's name where the run without holds none -/
-def NameRel (u u' : String) : Prop := u' = u ∨ (u = exhaustiveName ∧ u' = "")
-
 theorem approvalsFor_strip (v : Variant) (P : Policy) (A : Option AttState) (ref : String)
     (frm : Option Nat) (to : Nat) :
     approvalsFor v (stripG P) A ref frm to = approvalsFor v P A ref frm to := rfl
@@ -90,47 +86,30 @@ theorem usingVerifiers_plain (v : Variant) (P : Policy) (vs : List VerifierN) (g
     have := hx a List.mem_cons_self
     simp [this]
 
-/-- the shortcut condition of `verifyObject` -/
-def shortcut (v : Variant) (trusted : String) (vs : List VerifierN) : Bool :=
-  trusted != "" && vs.any (fun vn => vn.name == trusted && (v.f63_trustExhaustive || !vn.v.exhaustive))
-
-theorem shortcut_rel (v : Variant) (spec : List VerifierN) (t t' : String)
-    (hs : ∀ vn ∈ spec, vn.name ≠ exhaustiveName ∧ vn.v.exhaustive = false) (hrel : NameRel t t') :
-    shortcut v t' spec = shortcut v t spec ∧ (shortcut v t spec = true → t' = t) := by
-  rcases hrel with h | ⟨h1, h2⟩
-  · subst h; exact ⟨rfl, fun _ => rfl⟩
-  · subst h1; subst h2
-    have : shortcut v exhaustiveName spec = false := by
-      unfold shortcut
-      have : spec.any (fun vn => vn.name == exhaustiveName && (v.f63_trustExhaustive || !vn.v.exhaustive)) = false := by
-        rw [List.any_eq_false]
-        intro vn hvn
-        have := (hs vn hvn).1
-        simp [this]
-      simp [this]
-    refine ⟨?_, fun h => by rw [this] at h; cases h⟩
-    rw [this]; simp [shortcut]
-
 /-- **Global rules only add, for one object**: if `verifyGitObjectAndAttestations` accepts an
 object for a path under a policy, it accepts it under the same policy without its global rules —
-with the repaired verifier loop (F1) and the repaired trusted-verifier shortcut (F63), for every
-policy, path, signature, approvals and options. -/
+with the repaired verifier loop (F1) and the repaired trusted-verifier shortcut (F64: not taken
+while global rules exist), for every policy, path, signature, approvals and options.  The two runs
+may hold different "already verified with" names once global rules exist; acceptance does not
+depend on it. -/
 theorem verifyObject_mono (W : World) (v : Variant) (hf1 : v.f1_exhaustiveSatisfies = false)
-    (hf63 : v.f63_trustExhaustive = false) (P : Policy) (path : String) (g : Option Sig)
+    (hf64 : v.f64_shortcutSkipsGlobals = false) (P : Policy) (path : String) (g : Option Sig)
     (ei : Option Nat) (ap : Approvals) (o o' : GOpts) (hm : o'.mergeable = o.mergeable)
-    (hsane : WalkSane P path) (hrel : NameRel o.trusted o'.trusted) (u : String) (need : Bool)
+    (hsane : WalkSane P path) (hrel : P.root.globals = [] → o'.trusted = o.trusted)
+    (u : String) (need : Bool)
     (h : W.verifyObject v P path g ei ap o = .ok (u, need)) :
-    ∃ u', W.verifyObject v (stripG P) path g ei ap o' = .ok (u', need) ∧ NameRel u u' := by
+    ∃ u' need', W.verifyObject v (stripG P) path g ei ap o' = .ok (u', need') ∧
+      (P.root.globals = [] → u' = u) ∧ (o'.trusted = "" → need' = need) := by
   unfold verifyObject at h ⊢
   rw [findVerifiers_strip]
   cases hspec : P.findSpecific path with
   | none => simp [Policy.findVerifiers, hspec] at h
   | some spec =>
     have hs := hsane spec hspec
-    obtain ⟨hsc, hsct⟩ := shortcut_rel v spec o.trusted o'.trusted hs hrel
     simp only [Policy.findVerifiers, hspec] at h
     simp only
-    -- the stripped run: no global rules to pass
+    have hsg : (stripG P).root.globals.isEmpty = true := rfl
+    simp only [hsg, Bool.or_true, Bool.and_true]
     have stripped_globals : ∀ r : UVResult,
         verifyObject.globals W path ei o' r (r.accepted.length : Int) (stripG P).root.globals = .ok () := by
       intro r; simp [stripG, verifyObject.globals]
@@ -140,13 +119,10 @@ theorem verifyObject_mono (W : World) (v : Variant) (hf1 : v.f1_exhaustiveSatisf
       by_cases hg : P.root.globals.isEmpty = true
       · simp only [hg, if_true, List.isEmpty_nil] at h
         cases h
-        exact ⟨"", rfl, Or.inl rfl⟩
-      · simp only [hg, Bool.false_eq_true, if_false, List.isEmpty_cons] at h
-        -- only the exhaustive verifier: it is the one "used"
-        have hsc0 : (o.trusted != "" && [({ name := exhaustiveName, v := { principals := P.allPrincipals.map (·.toPrincipal), threshold := 1, exhaustive := true } } : VerifierN)].any
-            (fun vn => vn.name == o.trusted && (v.f63_trustExhaustive || !vn.v.exhaustive))) = false := by
-          simp [hf63]
-        simp only [hsc0, Bool.false_eq_true, if_false] at h
+        exact ⟨"", false, rfl, fun _ => rfl, fun _ => rfl⟩
+      · have hgne : P.root.globals ≠ [] := by intro h0; rw [h0] at hg; exact hg rfl
+        simp only [hg, Bool.false_eq_true, if_false, List.isEmpty_cons, hf64, Bool.or_self, Bool.and_false,
+          Bool.false_and] at h
         unfold usingVerifiers at h
         simp only [List.isEmpty_cons, Bool.false_eq_true, if_false, hf1, Bool.not_false, Bool.and_self, if_true,
           List.isEmpty_nil] at h
@@ -159,67 +135,57 @@ theorem verifyObject_mono (W : World) (v : Variant) (hf1 : v.f1_exhaustiveSatisf
             split at hr
             · cases hr
             · cases hr
-              exact ⟨"", rfl, Or.inr ⟨rfl, rfl⟩⟩
+              exact ⟨"", false, rfl, fun h0 => absurd h0 hgne, fun _ => rfl⟩
     | cons s0 srest =>
       have hne : (s0 :: srest) ≠ [] := by simp
       have hx : ∀ vn ∈ s0 :: srest, vn.v.exhaustive = false := fun vn hvn => (hs vn hvn).2
       simp only [List.isEmpty_cons, Bool.false_eq_true, if_false]
-      -- the shortcut of the stripped run
-      have hsc' : (o'.trusted != "" && (s0 :: srest).any (fun vn => vn.name == o'.trusted && (v.f63_trustExhaustive || !vn.v.exhaustive)))
-          = shortcut v o.trusted (s0 :: srest) := hsc
-      rw [hsc']
       by_cases hg : P.root.globals.isEmpty = true
-      · simp only [hg, if_true, List.isEmpty_cons, Bool.false_eq_true, if_false] at h
-        have hsc1 : (o.trusted != "" && (s0 :: srest).any (fun vn => vn.name == o.trusted && (v.f63_trustExhaustive || !vn.v.exhaustive)))
-            = shortcut v o.trusted (s0 :: srest) := rfl
-        rw [hsc1] at h
-        cases hC : shortcut v o.trusted (s0 :: srest) with
-        | true =>
-          simp only [hC, if_true] at h ⊢
+      · have hgl : P.root.globals = [] := by simpa using hg
+        have ht := hrel hgl
+        simp only [hg, if_true, List.isEmpty_cons, Bool.false_eq_true, if_false, Bool.or_true, Bool.and_true] at h
+        rw [ht]
+        split at h
+        · rename_i hC
+          simp only [hC, if_true]
           cases h
-          exact ⟨o'.trusted, rfl, Or.inl (hsct hC)⟩
-        | false =>
-          simp only [hC, Bool.false_eq_true, if_false] at h ⊢
+          exact ⟨o.trusted, false, rfl, fun _ => rfl, fun _ => rfl⟩
+        · rename_i hC
+          simp only [hC]
           rw [usingVerifiers_strip, hm]
           split at h
           · cases h
           · rename_i r hr
-            have hgl : P.root.globals = [] := by simpa using hg
             rw [hgl] at h
             simp only [verifyObject.globals] at h
             cases h
             rw [stripped_globals r]
-            exact ⟨r.usedName, rfl, Or.inl rfl⟩
-      · simp only [hg, Bool.false_eq_true, if_false, List.isEmpty_cons] at h
-        -- the exhaustive verifier never satisfies the shortcut
-        have hsc1 : (o.trusted != "" && (({ name := exhaustiveName, v := { principals := P.allPrincipals.map (·.toPrincipal), threshold := 1, exhaustive := true } } : VerifierN) :: s0 :: srest).any
-            (fun vn => vn.name == o.trusted && (v.f63_trustExhaustive || !vn.v.exhaustive)))
-            = shortcut v o.trusted (s0 :: srest) := by
-          simp [shortcut, hf63]
-        rw [hsc1] at h
-        cases hC : shortcut v o.trusted (s0 :: srest) with
-        | true =>
-          simp only [hC, if_true] at h ⊢
-          cases h
-          exact ⟨o'.trusted, rfl, Or.inl (hsct hC)⟩
-        | false =>
-          simp only [hC, Bool.false_eq_true, if_false] at h ⊢
+            exact ⟨r.usedName, r.rslNeeded, rfl, fun _ => rfl, fun _ => rfl⟩
+      · have hgne : P.root.globals ≠ [] := by intro h0; rw [h0] at hg; exact hg rfl
+        simp only [hg, Bool.false_eq_true, if_false, List.isEmpty_cons, hf64, Bool.or_self, Bool.and_false,
+          Bool.false_and] at h
+        split at h
+        · cases h
+        · rename_i r hr
+          obtain ⟨r', hr', hn1, hn2, _⟩ := C11_exhaustive_adds_only v P _ (s0 :: srest) g ap.auth ap.approvers o.mergeable r rfl hf1 hne hr
           split at h
           · cases h
-          · rename_i r hr
-            obtain ⟨r', hr', hn1, hn2, _⟩ := C11_exhaustive_adds_only v P _ (s0 :: srest) g ap.auth ap.approvers o.mergeable r rfl hf1 hne hr
-            rw [usingVerifiers_strip, hm, usingVerifiers_plain v P (s0 :: srest) g ap.auth ap.approvers o.mergeable hne hx, hr']
-            simp only
-            split at h
-            · cases h
-            · cases h
-              rw [stripped_globals r', hn1, hn2]
-              exact ⟨r.usedName, rfl, Or.inl rfl⟩
+          · cases h
+            split
+            · rename_i hC'
+              refine ⟨o'.trusted, false, rfl, fun h0 => absurd h0 hgne, ?_⟩
+              intro ht
+              rw [ht] at hC'
+              simp at hC'
+            · rw [usingVerifiers_strip, hm, usingVerifiers_plain v P (s0 :: srest) g ap.auth ap.approvers o.mergeable hne hx, hr']
+              simp only
+              rw [stripped_globals r']
+              exact ⟨r'.usedName, r'.rslNeeded, rfl, fun h0 => absurd h0 hgne, fun _ => hn2⟩
 
 theorem verifyPaths_mono (W : World) (v : Variant) (hf1 : v.f1_exhaustiveSatisfies = false)
-    (hf63 : v.f63_trustExhaustive = false) (P : Policy) (ap : Approvals) (g : Option Sig)
+    (hf64 : v.f64_shortcutSkipsGlobals = false) (P : Policy) (ap : Approvals) (g : Option Sig)
     (hsane : ∀ path, WalkSane P path) :
-    ∀ (paths : List String) (used used' : String), NameRel used used' →
+    ∀ (paths : List String) (used used' : String), (P.root.globals = [] → used' = used) →
       W.verifyPaths v P ap g paths used = .ok () → W.verifyPaths v (stripG P) ap g paths used' = .ok () := by
   intro paths
   induction paths with
@@ -230,13 +196,13 @@ theorem verifyPaths_mono (W : World) (v : Variant) (hf1 : v.f1_exhaustiveSatisfi
     split at h
     · cases h
     · rename_i u b hres
-      obtain ⟨u', hres', hrel'⟩ := verifyObject_mono W v hf1 hf63 P ("file:" ++ p) g none ap
+      obtain ⟨u', b', hres', hrel', _⟩ := verifyObject_mono W v hf1 hf64 P ("file:" ++ p) g none ap
         { trusted := used } { trusted := used' } rfl (hsane _) hrel u b hres
       rw [hres']
       exact ih u u' hrel' h
 
 theorem verifyFiles_mono (W : World) (v : Variant) (hf1 : v.f1_exhaustiveSatisfies = false)
-    (hf63 : v.f63_trustExhaustive = false) (P : Policy) (ap : Approvals)
+    (hf64 : v.f64_shortcutSkipsGlobals = false) (P : Policy) (ap : Approvals)
     (hsane : ∀ path, WalkSane P path) :
     ∀ (cs : List Nat), W.verifyFiles v P ap cs = .ok () → W.verifyFiles v (stripG P) ap cs = .ok () := by
   intro cs
@@ -248,15 +214,21 @@ theorem verifyFiles_mono (W : World) (v : Variant) (hf1 : v.f1_exhaustiveSatisfi
     split at h
     · cases h
     · rename_i hp
-      rw [verifyPaths_mono W v hf1 hf63 P ap _ hsane _ "" "" (Or.inl rfl) hp]
+      rw [verifyPaths_mono W v hf1 hf64 P ap _ hsane _ "" "" (fun _ => rfl) hp]
       exact ih h
 
+theorem hasFileRuleV_strip (v : Variant) (P : Policy) :
+    hasFileRuleV v (stripG P) = P.hasFileRule := by
+  unfold hasFileRuleV
+  rw [hasFileRule_strip]
+  simp [stripG]
+
 /-- **C11 monotonicity for one change** (every history, policy, attestation state and entry; F1
-and F63 repaired): if `verifyEntry` accepts an entry under a policy that declares global rules, it
+and F64 repaired): if `verifyEntry` accepts an entry under a policy that declares global rules, it
 accepts the same entry under the same policy without them.  Declaring a global rule never makes
 verification accept a change that the delegation rules alone reject. -/
 theorem C11_entry_monotone (W : World) (v : Variant) (hf1 : v.f1_exhaustiveSatisfies = false)
-    (hf63 : v.f63_trustExhaustive = false) (P : Policy) (A : Option AttState) (i : Nat) (e : LogEntry)
+    (hf64 : v.f64_shortcutSkipsGlobals = false) (P : Policy) (A : Option AttState) (i : Nat) (e : LogEntry)
     (hsane : ∀ path, WalkSane P path)
     (h : W.verifyEntry v P A i e = .ok ()) : W.verifyEntry v (stripG P) A i e = .ok () := by
   unfold verifyEntry at h ⊢
@@ -274,15 +246,17 @@ theorem C11_entry_monotone (W : World) (v : Variant) (hf1 : v.f1_exhaustiveSatis
         split at h
         · cases h
         · rename_i res hres
-          obtain ⟨u', hres', _⟩ := verifyObject_mono W v hf1 hf63 P _ _ (some i) ap {} {} rfl (hsane _)
-            (Or.inl rfl) res.1 res.2 hres
+          obtain ⟨u', b', hres', _, _⟩ := verifyObject_mono W v hf1 hf64 P _ _ (some i) ap {} {} rfl (hsane _)
+            (fun _ => rfl) res.1 res.2 hres
           rw [hres']
-          simp only [hasFileRule_strip]
-          split at h
-          · rename_i hnf; simp only [hnf, if_true]
-          · rename_i hnf
-            simp only [hnf, Bool.false_eq_true, if_false]
-            exact verifyFiles_mono W v hf1 hf63 P ap hsane _ h
+          simp only [hasFileRuleV_strip]
+          cases hfr : P.hasFileRule with
+          | false => simp
+          | true =>
+            have : hasFileRuleV v P = true := by simp [hasFileRuleV, hfr]
+            simp only [this, Bool.not_true, Bool.false_eq_true, if_false] at h
+            simp only [Bool.not_true, Bool.false_eq_true, if_false]
+            exact verifyFiles_mono W v hf1 hf64 P ap hsane _ h
 
 end World
 
@@ -398,10 +372,10 @@ namespace World
 
 /-- `C11_entry_monotone` under the decidable hypothesis -/
 theorem C11_entry_monotone_B (W : World) (v : Variant) (hf1 : v.f1_exhaustiveSatisfies = false)
-    (hf63 : v.f63_trustExhaustive = false) (P : Policy) (hP : noReservedNameB P = true)
+    (hf64 : v.f64_shortcutSkipsGlobals = false) (P : Policy) (hP : noReservedNameB P = true)
     (A : Option AttState) (i : Nat) (e : LogEntry)
     (h : W.verifyEntry v P A i e = .ok ()) : W.verifyEntry v (stripG P) A i e = .ok () :=
-  C11_entry_monotone W v hf1 hf63 P A i e (walkSane_of_B P hP) h
+  C11_entry_monotone W v hf1 hf64 P A i e (walkSane_of_B P hP) h
 
 /-- non-vacuity, and necessity of the F63 repair: on the F63 witness the hypothesis holds; with the
 defect present the entry is accepted WITH the (unrelated) global rule and rejected without it —
@@ -409,12 +383,48 @@ monotonicity fails; with the repair both are rejected.  An authorized change is 
 example :
     let P63 : Policy := ⟨{ wRoot with globals := [⟨"unrelated", true, ["git:refs/heads/unrelated"], 1⟩] }, [wFile63]⟩
     noReservedNameB P63 = true ∧
-    wF63.verifyEntry { Variant.good with f63_trustExhaustive := true } P63 none 1 (push 0 2) = .ok () ∧
-    (wF63.verifyEntry { Variant.good with f63_trustExhaustive := true } (stripG P63) none 1 (push 0 2)).isOk = false ∧
+    wF63.verifyEntry { Variant.good with f63_trustExhaustive := true, f64_shortcutSkipsGlobals := true } P63 none 1 (push 0 2) = .ok () ∧
+    (wF63.verifyEntry { Variant.good with f63_trustExhaustive := true, f64_shortcutSkipsGlobals := true } (stripG P63) none 1 (push 0 2)).isOk = false ∧
     (wF63.verifyEntry Variant.good P63 none 1 (push 0 2)).isOk = false ∧
     ({ wF63 with commits := [⟨[], 0, some 3⟩] } : World).verifyEntry Variant.good P63 none 1 (push 0 2) = .ok () ∧
     ({ wF63 with commits := [⟨[], 0, some 3⟩] } : World).verifyEntry Variant.good (stripG P63) none 1 (push 0 2) = .ok () := by
   decide
+
+end World
+
+namespace World
+
+/-- F64: one file rule covers every file (threshold 1), a global rule demands two principals for
+`src/*`; a commit by key 2 changes `docs/x` (rule met; global rule does not match) and `src/y`.
+The shortcut accepts `src/y` before the global rule is looked at. -/
+def wFile64 : RuleFile := ⟨"targets", 1, [⟨1002, false, [2], []⟩, ⟨1003, false, [3], []⟩],
+  [⟨"protect-main", ["git:refs/heads/main"], [1002], 1, false⟩, ⟨"protect-files", ["file:*"], [1002, 1003], 1, false⟩, allowRule], [1]⟩
+def wF64 : World := {
+  trees := [[("docs/x", 1), ("src/y", 2)]], commits := [⟨[], 0, some 2⟩],
+  policies := [⟨{ wRoot with globals := [⟨"two-for-src", true, ["file:src/*"], 2⟩] }, [wFile64]⟩], atts := [],
+  log := [polEntry 0, push 0 2] }
+
+theorem F64_witness :
+    wF64.verifyRefFull { Variant.good with f64_shortcutSkipsGlobals := true } mainRef = .ok (some 0) ∧
+    wF64.c11Globals mainRef 1 1 = false ∧
+    (wF64.verifyRefFull Variant.good mainRef).isOk = false ∧
+    -- the same commit changing `src/y` only is rejected either way
+    (({ wF64 with trees := [[("src/y", 2)]] } : World).verifyRefFull
+        { Variant.good with f64_shortcutSkipsGlobals := true } mainRef).isOk = false := by decide
+
+/-- F65: no delegation rule has a `file:` pattern; a global rule demands one authenticated principal
+for `src/*`; an unsigned commit changes `src/y`.  The files of the commit are never looked at. -/
+def wF65 : World := {
+  trees := [[("src/y", 2)]], commits := [⟨[], 0, none⟩],
+  policies := [⟨{ wRoot with globals := [⟨"one-for-src", true, ["file:src/*"], 1⟩] }, [wFile]⟩], atts := [],
+  log := [polEntry 0, push 0 2] }
+
+theorem F65_witness :
+    wF65.verifyRefFull { Variant.good with f65_globalFileRuleIgnored := true } mainRef = .ok (some 0) ∧
+    wF65.c11Globals mainRef 1 1 = false ∧
+    (wF65.verifyRefFull Variant.good mainRef).isOk = false ∧
+    -- signed by any principal of the policy, the commit is accepted by the repaired variant
+    ({ wF65 with commits := [⟨[], 0, some 3⟩] } : World).verifyRefFull Variant.good mainRef = .ok (some 0) := by decide
 
 end World
 
